@@ -50,12 +50,22 @@ func main() {
 			for step := 0; step < 6*n && !s.Dead; step++ {
 				switch x := rng.Intn(100); {
 				case x < 35 && len(pending) > 0:
-					s.Repair(members, 3)
+					if rng.Chance(60) {
+						s.Repair(members, 3)
+					}
 					j := pending[0]
 					pending = pending[1:]
-					if rng.Chance(40) {
+					if rng.Chance(60) {
 						// background tasks of other nodes run while the join is half-way
 						if s.Do("joinbegin", ringh.U(j), ringh.U(hlib.Pick(rng, members))) == "ok" {
+							// every member runs some of its tasks, in random order, while the join is half-way
+							for _, m := range members {
+								for _, task := range []string{"stabilize", "checkpred", "fixfinger"} {
+									if rng.Chance(60) {
+										s.Do(task, ringh.U(m))
+									}
+								}
+							}
 							for k := 0; k < rng.Intn(4); k++ {
 								randomTask()
 							}
